@@ -56,6 +56,8 @@ type bpWorld struct {
 	puts       int
 	faultFired bool
 
+	knownTie bool // the recorded tip tie-break finding was hit in this run
+
 	liveQ, liveL map[uint64]blobpool.VerifStoreEntry // what the two stores hold, from the store events
 
 	log simcore.Hash64
@@ -1032,6 +1034,14 @@ func (w *bpWorld) checkHeap(o *bpObs) *simcore.Violation {
 			v := simcore.Violf("evict-heap-order", "eviction heap: account %x (slot %d, priority %d, min tip %v) sits below %x (slot %d, same priority, min tip %v)",
 				snap.HeapAddrs[i][:4], i, c.prio, c.tip, snap.HeapAddrs[par][:4], par, p.tip)
 			v.Key = "evict-heap-order:tip-tiebreak"
+			v.Msg += " [accounts in one priority bucket are ordered by their minimum tip; appending a transaction with a lower tip but unchanged fee-cap minima does not re-sort the heap]"
+			if simcore.IsKnown(v.Key) {
+				if !w.knownTie {
+					w.knownTie = true
+					w.res.KnownHit(v.Key)
+				}
+				continue
+			}
 			return v
 		}
 	}
@@ -1067,11 +1077,21 @@ func (w *bpWorld) checkOp(op *BPOp, info *bpInfo, B, A *bpObs) *simcore.Violatio
 			return nil
 		}
 		// clean restart: same contents, same limbo
+		// Datacap is a soft cap: a reset may reinject beyond it, and Init then evicts
+		// down to it ("evict anything above the current allowance")
+		overCap := B.snap.Stored > uint64(w.p.Knobs.DatacapKB)*1024
+		if overCap {
+			w.res.Probe("clean-restart-over-capacity")
+			if A.snap.Stored > uint64(w.p.Knobs.DatacapKB)*1024 {
+				return simcore.Violf("clean-restart-contents", "pool stores %d bytes after reopening, capacity %d", A.snap.Stored, uint64(w.p.Knobs.DatacapKB)*1024)
+			}
+		}
 		for _, a := range w.chain.accts {
 			b, r := B.byAcct[a.addr], A.byAcct[a.addr]
-			if len(b) != len(r) {
+			if len(b) != len(r) && !(overCap && len(r) < len(b)) {
 				return simcore.Violf("clean-restart-contents", "account %x had %d pooled transactions before Close, %d after reopening", a.addr[:4], len(b), len(r))
 			}
+			b = b[:len(r)]
 			for i := range b {
 				if b[i].Hash != r[i].Hash {
 					return simcore.Violf("clean-restart-contents", "account %x: transaction %d was %x before Close, %x after reopening", a.addr[:4], i, b[i].Hash[:4], r[i].Hash[:4])
